@@ -52,3 +52,15 @@ CHECKS["C06"] = (
     "Held on the executions observed: for each scenario and victim role the peer skips (consistently), duplicates, swaps, moves, inserts or replaces its own handshake/CCS messages (distance 1 quick, <=2 thorough), reaching protected phases of all versions; the victim completes only for sequences in the language, out-of-language sequences never deliver application data and end in a fatal alert (or legitimately waiting); junk after completion is refused; renegotiation attempts and a second handshake call never start a handshake. Known finding F16 (client leniency about NewSessionTicket) is reported.",
     "Grammar written from RFC 5246/8446 with scenario options fixed by the honest trace (self-checked: every honest trace must be in its language).",
     "DESIGN.md section 3, C06")
+CHECKS["C13"] = (
+    "exploration",
+    "runtime monitoring: seeded connection histories under a virtual clock checked against a harness-side resumption history model",
+    "Held on the histories observed: full handshakes, resumption attempts (session ID, TLS<=1.2 ticket, TLS 1.3 ticket), closures (clean/fatal/abrupt), clock advances around cache age and ticket lifetime, ticket-key rotation, foreign server, cache eviction, altered/truncated tickets, unknown IDs and ClientHello changes; per attempt the model derives must-not-resume / must-complete and the observed resumed flags, outcome, parameters and client identity are compared.",
+    "may_resume never obliges resumption except for fresh unmodified control attempts; resumption at a lower protocol version is recorded, not judged.",
+    "DESIGN.md section 3, C13")
+CHECKS["C18"] = (
+    "exploration",
+    "runtime monitoring: controlled thread scheduler with line-level preemption and lock replacement (invariant hooks under the object's own lock), linearizability checking against a sequential model, bounded-exhaustive sequential histories, real-thread stress with yield injection",
+    "Held on the schedules observed: bounded-exhaustive sequential SessionCache histories (maxEntries 2-3, length <=6/7) and random ones against the must-hit/must-miss model with a virtual clock; systematic schedules (preemption bound <=2, 3 in thorough) of 2-3 threads x 1-3 operations on a shared SessionCache, RSA key (every result == pow(m,d,n), blinding invariant under the lock) and VerifierDB (in-memory and dbm.dumb) with linearizability checks; stress with 4-16 real threads.",
+    "Preemption at line granularity (bytecode-level races inside one line only by stress); pure-python RSA; dbm.dumb back end forced for the on-disk DB.",
+    "DESIGN.md section 3, C18")
